@@ -52,7 +52,7 @@ K_GLN = 64
 K_Q = 128
 K_MONO = 8            # monotone in x, a <= 100: rounding noise of the formula (audit: <= 5e-14), K_Q/16
 MONO_A_LARGE = 1e-11  # monotone in x, a > 100 (audit: noise <= 2.7e-12 after fix 317093f)
-K_REC = 128           # GammaLn(x+1) = GammaLn(x) + log x
+K_REC = 16            # GammaLn(x+1) = GammaLn(x) + log x
 ULP_GREC = 16         # Gamma(x+1) = x Gamma(x) in ulp (std::tgamma after fix a972610)
 TOL_LN = 1e-14        # GammaLn / Gamma vs reference: relative (+ absolute near the zeros of lnGamma)
 TOL_A_SMALL = 1e-12   # a <= 100
@@ -64,6 +64,17 @@ A100_NAN = "a>100: Inv_GammaP/Inv_GammaQ returns NaN"
 A100_INV = "a>100: P(Inv_GammaP(p,a),a) differs from p by more than 1e-3"
 ULP_BINOM = 8         # "a few ulp" for n <= 170 (audit: worst 7.3)
 ULP_BINOM_LAWS = 6    # symmetry and Pascal's rule for n <= 170 (audit: worst 4)
+# OPEN DEFECTS with a repair proposed (second audit): True = the former behaviour is tolerated; rehearsal: LP_ASSUME_FIXED=C06-4,C06-5,C06-6
+_FIXED = set(os.environ.get("LP_ASSUME_FIXED", "").split(","))
+PENDING_P4 = "C06-4" not in _FIXED    # GammaQint 1e-5 / 10 sigma: CDF_Poisson decreases across k = 99 -> 100 (fixprop-C06-4)
+PENDING_BINOM_ALL = "C06-6" not in _FIXED  # Binomial n <= 170 through three rounded factorials: 132 wrong integers, 7.3 ulp (fixprop-C06-6)
+PENDING_P5 = "C06-5" not in _FIXED    # Upper/Lower_Incomplete_Gamma nan where Gamma(s) overflows (fixprop-C06-5)
+ASSUMPTIONS += [t for f, t in (
+    (PENDING_P4, "OPEN DEFECT P4 (fixprop-C06-4): monotone in x for a > 100 is judged at 1e-11 absolute; after the repair also relatively (1e-6 of the value) in the tails"),
+    (PENDING_BINOM_ALL, "OPEN DEFECT (fixprop-C06-6): Binomial_Coefficient and its laws at 8 / 6 ulp (factorial path n <= 170); after the repair 1 ulp"),
+    (PENDING_P5, "OPEN DEFECT P5 (fixprop-C06-5): Upper/Lower_Incomplete_Gamma are requested for s <= 170 only (nan where Gamma(s) overflows)"),
+    (not PENDING_P5, "Upper/Lower_Incomplete_Gamma where Gamma(s) = inf: the value is Gamma(s) times the regularized fraction as GammaQ/GammaP return it; where that fraction "
+                     "underflows to 0 (below 2.2e-308, or beyond the 13-sigma cut of the quadrature for s > 100) the part is 0 although the true value is positive")) if f]
 ASSUMPTIONS += ["Gamma(x) = +inf is the correctly rounded answer (and is demanded) for x beyond 171.62437695630271, the last double whose Gamma does not "
                 "exceed DBL_MAX, and for 0 < x below about 1/DBL_MAX = 5.56e-309; wherever the reference is finite a finite value within 1e-14 is demanded",
                 "remaining exclusions (counted as 'excused' in the evidence): the bit-identity of GammaQ with the evaluator the model selects is not "
@@ -257,9 +268,14 @@ def generate(tier, seed, ctx):
     for j in range(nq):
         a = draw_a(); x = draw_x(a)
         op = ("c06.gammaq", "c06.gammap", "c06.uplow")[j % 3 if j % 5 else 0]
-        if op == "c06.uplow" and a > 170:
-            op = "c06.gammaq"           # Gamma(s) overflows: Upper/Lower are inf*Q
+        if op == "c06.uplow" and a > 170 and PENDING_P5:
+            op = "c06.gammaq"           # Gamma(s) overflows: Upper/Lower are inf*Q (nan before fixprop-C06-5)
         R.append("%s %s %s" % (op, hx(x), hx(a)))
+    if not PENDING_P5:      # Upper/Lower where Gamma(s) overflows (s > 171.62, s < 5.6e-309): the clause Upper + Lower = Gamma includes inf
+        for j in range(120 if th else 40):
+            sg = rng.choice([172.0, 200.0, 171.7, 10.0 ** rng.uniform(2.24, 4), rng.uniform(171.63, 400)]) if j % 5 else 10.0 ** rng.uniform(-320, -308.3)
+            xx = rng.choice([0.0, 1.0, 1000.0, max(0.0, sg + rng.uniform(-4, 4) * math.sqrt(sg)), rng.uniform(0, 3 * sg + 10)])
+            R.append("c06.uplow %s %s" % (hx(xx), hx(sg)))
     # a > 100: dense where a single-interval adaptive Simpson stopped prematurely before `fix:` f69671d
     # ((x-a)/sqrt(a) close to -0.48, 6.7, 8.8, 9.1) and over the whole +-10 sigma window
     for j in range(1500 if th else 320):
@@ -367,7 +383,7 @@ def generate(tier, seed, ctx):
         p = min(max(p, 1.0000001e-12), 1 - 1.0000001e-12)
         c = rng.random()
         if c < 0.35:
-            a = 10.0 ** rng.uniform(-2, 2)
+            a = 10.0 ** rng.uniform(-2, 2) if j % 4 else 10.0 ** rng.uniform(-17, -2)
         elif c < 0.6:
             a = rng.uniform(0.05, 100)
         elif c < 0.7:
@@ -431,7 +447,7 @@ def model_Q(x, a, mt):
 
 def binom_tol(n, ex, ulps=ULP_BINOM):
     """few ulp for n<=170 (below one unit this forces the exact integer), 2e-11 relative for n>170"""
-    t = ulps * 2 * EPS * ex
+    t = (ulps if PENDING_BINOM_ALL else 1) * 2 * EPS * ex          # after fixprop-C06-6: correctly rounded (0.5 ulp), 1 ulp demanded
     return t if t >= 1 else Fraction(1, 2)
 
 
@@ -545,7 +561,7 @@ def _check(op, a, ti, mt, ctx, rq):
         if mt is not None:
             if fr(mt[0]) != ex:
                 out.append(fail("corr", "model binomial (floor formula / gcd-reduced product) is not C(n,k)", ""))
-            if len(ti) > 1 and len(mt) > 1 and int(ti[1]) != int(mt[1]):
+            if len(ti) > 1 and len(mt) > 1 and int(ti[1]) != (int(mt[1]) if PENDING_BINOM_ALL else 1):   # after fixprop-C06-6 the memo table is not touched
                 out.append(fail("corr", "Binomial_Coefficient: memo table size differs from the model", ""))
     elif op in ("c06.gammaln", "c06.gamma"):
         x = fl(a[0]); v = fl(ti[0])
@@ -616,6 +632,11 @@ def _check(op, a, ti, mt, ctx, rq):
                 out.append(fail("prop", A100_Q, "x=%r a=%r (r=%.5f) got %r ref %s; %d of %d scan points beyond 1e-3" % (
                     float(xs[i]), s, (float(xs[i]) - (s - 1)) / math.sqrt(s), float(qs[i]), mpmath.nstr(rf, 17), int(np.sum(err > TOL_A_LARGE)), n)))
             bump(ctx, "scan points (a>100)", int(np.sum(ok)))
+            # dense monotone clause: Q does not increase along the scan (x increases)
+            inc = np.where(ok[1:] & ok[:-1], qs[1:] - qs[:-1], 0.0)
+            k = int(np.argmax(inc))
+            if not ratio(ctx, "fine scan: GammaQ non-increasing in x (a>100)", max(0.0, float(inc[k])), MONO_A_LARGE):
+                out.append(fail("prop", "GammaQ is not monotone in x", "a=%r x=%r -> %r, x=%r -> %r" % (s, float(xs[k]), float(qs[k]), float(xs[k + 1]), float(qs[k + 1]))))
     elif op in ("c06.gammaq", "c06.gammap", "c06.uplow"):
         x, s = fl(a[0]), fl(a[1])
         X, S = Fraction(x), Fraction(s)
@@ -640,6 +661,18 @@ def _check(op, a, ti, mt, ctx, rq):
             gs = mpmath.gamma(M(S))
             if gs <= mpf(DBL_MAX) and not (math.isfinite(G) and ratio(ctx, "Gamma(s) inside Upper/Lower vs mpmath.gamma", abs(mpf(G) - gs) if math.isfinite(G) else 1, gs * TOL_LN)):
                 out.append(fail("prop", "Upper/Lower_Incomplete_Gamma: Gamma(s) overflows or disagrees with the reference although it is finite", "s=%r Gamma(s)=%r reference %s" % (s, G, mpmath.nstr(gs, 17))))
+            if not PENDING_P5 and math.isinf(G):
+                # Gamma(s) overflows: no nan, Upper + Lower = Gamma = inf, and each part is Gamma_ref * fraction wherever that is representable
+                if math.isnan(U) or math.isnan(L) or U < 0 or L < 0 or U + L != G:
+                    out.append(fail("prop", "Upper + Lower incomplete gamma is not Gamma (Gamma(s) = inf)", "x=%r s=%r U=%r L=%r G=%r" % (x, s, U, L, G)))
+                lg = mpmath.loggamma(M(S))
+                for nm, part, frac in (("Upper", U, Q), ("Lower", L, P)):
+                    if frac > 0:
+                        want = mpmath.exp(lg + mpmath.log(mpf(frac)))
+                        if want <= mpf(DBL_MAX) and not (math.isfinite(part) and ratio(ctx, nm + " = Gamma(s)*fraction where Gamma(s) overflows", abs(mpf(part) - want), want * 1e-11 + 1e-300)):
+                            out.append(fail("prop", nm + "_Incomplete_Gamma is not Gamma(s) times the regularized fraction (Gamma(s) = inf)", "x=%r s=%r got %r want %s" % (x, s, part, mpmath.nstr(want, 15))))
+                    elif part != 0.0:
+                        out.append(fail("prop", nm + "_Incomplete_Gamma is not 0 for a zero regularized fraction", "x=%r s=%r got %r" % (x, s, part)))
             if math.isfinite(G) and G > 0:
                 if not ratio(ctx, "Upper+Lower=Gamma", abs(Fraction(U) + Fraction(L) - Fraction(G)), 2 * EPS * Fraction(G)):   # 1 ulp
                     out.append(fail("prop", "Upper + Lower incomplete gamma is not Gamma", "x=%r s=%r U=%r L=%r G=%r" % (x, s, U, L, G)))
